@@ -489,7 +489,7 @@ class MembersType(Type):
 
                 values[member.name] = value
             elif member.has_default():
-                values[member.name] = member.default
+                values[member.name] = member.get_default()
 
         return values
 
